@@ -5,8 +5,8 @@ import NmVerif.NN.Conv2dLemmas
   C17 — neural-network routines equal their reference (PyTorch) definitions.
 
   MODEL  NmVerif.NN.Conv (view::convnd pipeline), NmVerif.NN.Pool (index::shape_pool2d, slice_pool2d, pool2d window)
-         — the code of /repo with fixes/C17-conv-batch, C17-conv-groups, C17-conv2d-dilation-pair and
-         C17-pool-ceil-window applied
+         — the code of /repo with the fixes C17-conv-batch, C17-conv2d-dilation-pair, C17-pool-ceil-window
+         (and C17-max-pool-initial) applied; the group interleaving of conv_reshape_weight is still there (known finding)
   SPEC   NmVerif.NN.Spec (`outSize`, `poolOutSpec`, `specWindow`, `conv1dLoop`, `conv2dLoop` with `grpSpec`)
   Floating-point tolerance is the harness's business; these theorems are about shapes and about which source
   elements are combined.
@@ -102,100 +102,144 @@ theorem intForm_form (p : Option Nat) : IntForm (form p) := by
   | none => exact Or.inl rfl
   | some v => exact Or.inr ⟨v, rfl⟩
 
-/-- **conv1d = the PyTorch nested loop, for any batch, stride, zero padding, dilation, groups and optional bias**
-    (stride / padding / dilation each passed as `None` or as an integer).
-    For an input `(N, g·Cg, L)`, a weight `(g·Og, Cg, K)` (so `groups = g` is any common divisor of the channel
-    counts) and an optional bias `(g·Og)`, with the dilated kernel fitting the padded input, the `view::convnd`
-    pipeline (reshape by groups → pad → sliding_window of input and of the dilation-expanded weight → multiply → sum →
-    reshape → bias → strided slice) is defined, has the extent `⌊(L + 2p − d(K−1) − 1)/s⌋ + 1`, and every element is
-    `bias[o] + Σ_c Σ_k xpad[n, grp(o)·Cg + c, l·s + k·d] · w[o,c,k]` with `grp(o) = o / (O/groups)`.
-    Quantified over all integer `x`, `w`, so the equality of the two sums is an identity of the
-    (input index, weight index) term sets. -/
-theorem conv1d_eq_nested_loop (x w : Arr Int) (bias : Option (Arr Int)) (N Og g Cg L K : Nat) (stride padding dilation : Option Nat)
-    (hx : x.shape = [N, g * Cg, L]) (hw : w.shape = [g * Og, Cg, K]) (hb : ∀ b, bias = some b → b.shape = [g * Og])
+/-- **conv1d, any batch / stride / zero padding / dilation / groups / optional bias, each option passed as `None` or as an
+    integer.**  For an input `(N, g·Cg, L)`, a weight `(Og·g, Cg, K)` (so `groups = g` is any common divisor of the
+    channel counts) and an optional bias `(Og·g)`, with the dilated kernel fitting the padded input, the
+    `view::convnd` pipeline (reshape by groups → pad → sliding_window of input and of the dilation-expanded weight →
+    multiply → sum → reshape → bias → strided slice) is defined, has the extent `⌊(L + 2p − d(K−1) − 1)/s⌋ + 1`, and
+    every element is the nested loop `bias[o] + Σ_c Σ_k xpad[n, grp(o)·Cg + c, l·s + k·d] · w[o,c,k]` — with the group of
+    output channel `o` being `o % g` (`grpCode`), which is what the code does.  Quantified over all integer `x`, `w`,
+    so the equality of the two sums is an identity of the (input index, weight index) term sets. -/
+theorem conv1d_eq_code_loop (x w : Arr Int) (bias : Option (Arr Int)) (N Og g Cg L K : Nat) (stride padding dilation : Option Nat)
+    (hx : x.shape = [N, g * Cg, L]) (hw : w.shape = [Og * g, Cg, K]) (hb : ∀ b, bias = some b → b.shape = [Og * g])
     (hOg : 0 < Og) (hg : 0 < g) (hK : 0 < K)
     (hs : ∀ v, stride = some v → 0 < v) (hd : ∀ v, dilation = some v → 0 < v)
     (hfit : Fits L K (paddingOf padding) (dilationOf dilation)) :
     ∃ r, convnd 1 x w bias (form stride) (form padding) (form dilation) g = .ok r ∧
-      r.shape = [N, g * Og, outSize L K (strideOf stride) (paddingOf padding) (dilationOf dilation)] ∧
-      ∀ n o l, n < N → o < g * Og → l < outSize L K (strideOf stride) (paddingOf padding) (dilationOf dilation) →
-        r.get [n, o, l] = conv1dLoop x w bias (g * Og) g L Cg K (strideOf stride) (paddingOf padding) (dilationOf dilation) n o l := by
+      r.shape = [N, Og * g, outSize L K (strideOf stride) (paddingOf padding) (dilationOf dilation)] ∧
+      ∀ n o l, n < N → o < Og * g → l < outSize L K (strideOf stride) (paddingOf padding) (dilationOf dilation) →
+        r.get [n, o, l] = conv1dLoop (grpCode g) x w bias L Cg K (strideOf stride) (paddingOf padding) (dilationOf dilation) n o l := by
   have hfit' : (K - 1) * dilV (form dilation) + 1 ≤ L + 2 * padVal (form padding) := by
     rw [dilV_form, padVal_form, Nat.mul_comm]; exact hfit
-  have := convnd1_eq_loop (bias := bias) hx hw hb hOg hg hK (posForm_form hs) (intForm_form padding) (posForm_form hd) hfit'
+  have := convnd1_eq_codeLoop (bias := bias) hx hw hb hOg hg hK (posForm_form hs) (intForm_form padding) (posForm_form hd) hfit'
   simpa only [strideVal_form, padVal_form, dilV_form] using this
 
-/-- output shape of conv1d = the standard formula, for all parameters (corollary) -/
+/-- output shape of conv1d = the standard formula, for every batch and every `groups` (corollary; the shape does not
+    depend on the group assignment) -/
 theorem conv_out_shape_eq_formula (x w : Arr Int) (bias : Option (Arr Int)) (N Og g Cg L K : Nat) (stride padding dilation : Option Nat)
-    (hx : x.shape = [N, g * Cg, L]) (hw : w.shape = [g * Og, Cg, K]) (hb : ∀ b, bias = some b → b.shape = [g * Og])
+    (hx : x.shape = [N, g * Cg, L]) (hw : w.shape = [Og * g, Cg, K]) (hb : ∀ b, bias = some b → b.shape = [Og * g])
     (hOg : 0 < Og) (hg : 0 < g) (hK : 0 < K)
     (hs : ∀ v, stride = some v → 0 < v) (hd : ∀ v, dilation = some v → 0 < v)
     (hfit : Fits L K (paddingOf padding) (dilationOf dilation)) :
     ∃ r, convnd 1 x w bias (form stride) (form padding) (form dilation) g = .ok r ∧
-      r.shape = [N, g * Og, outSize L K (strideOf stride) (paddingOf padding) (dilationOf dilation)] := by
-  obtain ⟨r, h1, h2, _⟩ := conv1d_eq_nested_loop x w bias N Og g Cg L K stride padding dilation hx hw hb hOg hg hK hs hd hfit
+      r.shape = [N, Og * g, outSize L K (strideOf stride) (paddingOf padding) (dilationOf dilation)] := by
+  obtain ⟨r, h1, h2, _⟩ := conv1d_eq_code_loop x w bias N Og g Cg L K stride padding dilation hx hw hb hOg hg hK hs hd hfit
   exact ⟨r, h1, h2⟩
+
+/-- **conv1d = the PyTorch nested loop** (group of output channel `o` is `o / (O/groups)`), for any batch, stride,
+    padding, dilation and bias, on the domain where the code's group assignment agrees with PyTorch's: `groups = 1`,
+    or one output channel per group (`O = groups`, e.g. depthwise).  Outside: `conv1d_groups_counterexample`. -/
+theorem conv1d_eq_nested_loop (x w : Arr Int) (bias : Option (Arr Int)) (N Og g Cg L K : Nat) (stride padding dilation : Option Nat)
+    (hx : x.shape = [N, g * Cg, L]) (hw : w.shape = [Og * g, Cg, K]) (hb : ∀ b, bias = some b → b.shape = [Og * g])
+    (hOg : 0 < Og) (hg : 0 < g) (hK : 0 < K)
+    (hs : ∀ v, stride = some v → 0 < v) (hd : ∀ v, dilation = some v → 0 < v)
+    (hfit : Fits L K (paddingOf padding) (dilationOf dilation))
+    (hdom : g = 1 ∨ Og = 1) :
+    ∃ r, convnd 1 x w bias (form stride) (form padding) (form dilation) g = .ok r ∧
+      r.shape = [N, Og * g, outSize L K (strideOf stride) (paddingOf padding) (dilationOf dilation)] ∧
+      ∀ n o l, n < N → o < Og * g → l < outSize L K (strideOf stride) (paddingOf padding) (dilationOf dilation) →
+        r.get [n, o, l] = conv1dLoop (grpSpec (Og * g) g) x w bias L Cg K (strideOf stride) (paddingOf padding) (dilationOf dilation) n o l := by
+  obtain ⟨r, h1, h2, h3⟩ := conv1d_eq_code_loop x w bias N Og g Cg L K stride padding dilation hx hw hb hOg hg hK hs hd hfit
+  refine ⟨r, h1, h2, fun n o l hn ho hl => ?_⟩
+  rw [h3 n o l hn ho hl]
+  exact conv1dLoop_congr_grp (grpCode_eq_grpSpec hdom ho) x w bias L Cg K _ _ _ n l
 
 /-- witnesses used by the examples: `x[n,c,j] = 100·n + 10·c + j + 1`, `w[o,c,k] = 100·o + 10·c + k + 1` -/
 def xW (shape : Shape) : Arr Int := ⟨shape, fun i => match i with | [n, c, j] => (100 * n + 10 * c + j + 1 : Nat) | _ => 0⟩
 def wW (shape : Shape) : Arr Int := ⟨shape, fun i => match i with | [o, c, k] => (100 * o + 10 * c + k + 1 : Nat) | _ => 0⟩
 
-/-- non-vacuity: batch 2, C = 4, groups = 2, O = 4 (two output channels per group), L = 5, K = 2, stride 2, padding 1,
-    dilation 2 — defined, shape (2,4,3), and element (1,3,2) is the nested loop -/
-example : ∃ r, convnd 1 (xW [2, 4, 5]) (wW [4, 2, 2]) none (form (some 2)) (form (some 1)) (form (some 2)) 2 = .ok r ∧
-    r.shape = [2, 4, 3] ∧ r.get [1, 3, 2] = conv1dLoop (xW [2, 4, 5]) (wW [4, 2, 2]) none 4 2 5 2 2 2 1 2 1 3 2 := by
-  obtain ⟨r, h1, h2, h3⟩ := conv1d_eq_nested_loop (xW [2, 4, 5]) (wW [4, 2, 2]) none 2 2 2 2 5 2 (some 2) (some 1) (some 2)
+/-- non-vacuity: batch 2, C = 4, groups = 2, O = 2 (depthwise-like), L = 5, K = 2, stride 2, padding 1, dilation 2 —
+    defined, shape (2,2,3), and element (1,1,2) is the PyTorch nested loop -/
+example : ∃ r, convnd 1 (xW [2, 4, 5]) (wW [2, 2, 2]) none (form (some 2)) (form (some 1)) (form (some 2)) 2 = .ok r ∧
+    r.shape = [2, 2, 3] ∧ r.get [1, 1, 2] = conv1dLoop (grpSpec 2 2) (xW [2, 4, 5]) (wW [2, 2, 2]) none 5 2 2 2 1 2 1 1 2 := by
+  obtain ⟨r, h1, h2, h3⟩ := conv1d_eq_nested_loop (xW [2, 4, 5]) (wW [2, 2, 2]) none 2 1 2 2 5 2 (some 2) (some 1) (some 2)
     rfl rfl (by intro b h; cases h) (by decide) (by decide) (by decide) (by intro v h; cases h; decide) (by intro v h; cases h; decide)
-    (by decide)
-  exact ⟨r, h1, h2, h3 1 3 2 (by decide) (by decide) (by decide)⟩
+    (by decide) (Or.inr rfl)
+  exact ⟨r, h1, h2, h3 1 1 2 (by decide) (by decide) (by decide)⟩
 
 /-- element read from an evaluation (0 when undefined) -/
 def Res.getD (r : Res (Arr Int)) (i : Idx) : Int := match r with | .ok a => a.get i | _ => 0
 def Res.shapeD (r : Res (Arr Int)) : Shape := match r with | .ok a => a.shape | _ => []
 
-/-- the former findings, now as positive instances: groups = 2 with two output channels per group reads PyTorch's
-    groups (output channel 1 ← input channel 0), and a batch of 2 is defined -/
-example :
+/-- known finding conv.groups-interleaved: C = 2, O = 4, groups = 2, K = L = 1, weights all 1, `x = (1, 2)`.
+    Output channel 1 belongs to group 0 (PyTorch: reads `x[0] = 1`) but the code computes it from group `1 % 2 = 1`
+    (reads `x[1] = 2`). -/
+theorem conv1d_groups_counterexample :
     let x : Arr Int := ⟨[1, 2, 1], fun i => match i with | [_, c, _] => (c + 1 : Nat) | _ => 0⟩
     let w : Arr Int := ⟨[4, 1, 1], fun _ => 1⟩
-    (List.range 4).map (fun o => Res.getD (convnd 1 x w none .none .none .none 2) [0, o, 0]) = [1, 1, 2, 2] := by
+    Res.getD (convnd 1 x w none .none .none .none 2) [0, 1, 0] = 2
+      ∧ conv1dLoop (grpSpec 4 2) x w none 1 1 1 1 0 1 0 1 0 = 1
+      ∧ conv1dLoop (grpCode 2) x w none 1 1 1 1 0 1 0 1 0 = 2 := by
   decide
+
+/-- the repaired batch handling as a positive instance: a batch of 2 is defined and keeps its extent -/
 example : Res.shapeD (convnd 1 (xW [2, 1, 2]) (wW [1, 1, 1]) none .none (.int 0) .none 1) = [2, 1, 2] := by decide
 
-/-- **conv2d = the PyTorch nested loop** (input `(N, g·Cg, H, W)`, weight `(g·Og, Cg, KH, KW)`, optional bias) for
-    stride, padding and dilation each given as `None`, one integer, or a pair `(h, w)` — per-plane values
-    `(sH,sW)`, `(pH,pW)`, `(dH,dW)` = `vals2 default arg`: the pipeline with `n_planes = 2` is defined, has the extents
+/-- **conv2d** (input `(N, g·Cg, H, W)`, weight `(Og·g, Cg, KH, KW)`, optional bias) for stride, padding and dilation each
+    given as `None`, one integer, or a pair `(h, w)` — per-plane values `(sH,sW)`, `(pH,pW)`, `(dH,dW)` =
+    `vals2 default arg`: the pipeline with `n_planes = 2` is defined, has the extents
     `⌊(H + 2pH − dH(KH−1) − 1)/sH⌋ + 1`, `⌊(W + 2pW − dW(KW−1) − 1)/sW⌋ + 1`, and every element is
-    `bias[o] + Σ_c Σ_kh Σ_kw xpad[n, grp(o)·Cg + c, i·sH + kh·dH, j·sW + kw·dW] · w[o,c,kh,kw]`. -/
-theorem conv2d_eq_nested_loop (x w : Arr Int) (bias : Option (Arr Int)) (N Og g Cg H W KH KW : Nat) (stride padding dilation : PArg)
-    (hx : x.shape = [N, g * Cg, H, W]) (hw : w.shape = [g * Og, Cg, KH, KW]) (hb : ∀ b, bias = some b → b.shape = [g * Og])
+    `bias[o] + Σ_c Σ_kh Σ_kw xpad[n, grp(o)·Cg + c, i·sH + kh·dH, j·sW + kw·dW] · w[o,c,kh,kw]` with `grp(o) = o % g`
+    (the code's assignment), for every `groups`. -/
+theorem conv2d_eq_code_loop (x w : Arr Int) (bias : Option (Arr Int)) (N Og g Cg H W KH KW : Nat) (stride padding dilation : PArg)
+    (hx : x.shape = [N, g * Cg, H, W]) (hw : w.shape = [Og * g, Cg, KH, KW]) (hb : ∀ b, bias = some b → b.shape = [Og * g])
     (hOg : 0 < Og) (hg : 0 < g) (hKH : 0 < KH) (hKW : 0 < KW)
     (hs : PosForm2 stride) (hp : Form2 padding) (hd : PosForm2 dilation)
     (hfH : Fits H KH (vals2 0 padding).1 (vals2 1 dilation).1) (hfW : Fits W KW (vals2 0 padding).2 (vals2 1 dilation).2) :
     ∃ r, convnd 2 x w bias stride padding dilation g = .ok r ∧
-      r.shape = [N, g * Og, outSize H KH (vals2 1 stride).1 (vals2 0 padding).1 (vals2 1 dilation).1,
+      r.shape = [N, Og * g, outSize H KH (vals2 1 stride).1 (vals2 0 padding).1 (vals2 1 dilation).1,
                  outSize W KW (vals2 1 stride).2 (vals2 0 padding).2 (vals2 1 dilation).2] ∧
-      ∀ n o i j, n < N → o < g * Og → i < outSize H KH (vals2 1 stride).1 (vals2 0 padding).1 (vals2 1 dilation).1 →
+      ∀ n o i j, n < N → o < Og * g → i < outSize H KH (vals2 1 stride).1 (vals2 0 padding).1 (vals2 1 dilation).1 →
         j < outSize W KW (vals2 1 stride).2 (vals2 0 padding).2 (vals2 1 dilation).2 →
-        r.get [n, o, i, j] = conv2dLoop x w bias (g * Og) g H W Cg KH KW (vals2 1 stride).1 (vals2 1 stride).2
+        r.get [n, o, i, j] = conv2dLoop (grpCode g) x w bias H W Cg KH KW (vals2 1 stride).1 (vals2 1 stride).2
           (vals2 0 padding).1 (vals2 0 padding).2 (vals2 1 dilation).1 (vals2 1 dilation).2 n o i j := by
   have hfH' : (KH - 1) * (vals2 1 dilation).1 + 1 ≤ H + 2 * (vals2 0 padding).1 := by rw [Nat.mul_comm]; exact hfH
   have hfW' : (KW - 1) * (vals2 1 dilation).2 + 1 ≤ W + 2 * (vals2 0 padding).2 := by rw [Nat.mul_comm]; exact hfW
-  exact convnd2_eq_loop (bias := bias) hx hw hb hOg hg hKH hKW hs hp hd hfH' hfW'
+  exact convnd2_eq_codeLoop (bias := bias) hx hw hb hOg hg hKH hKW hs hp hd hfH' hfW'
 
-/-- conv2d output shape = the standard formula on both planes (corollary) -/
+/-- conv2d output shape = the standard formula on both planes, every batch, every `groups` (corollary) -/
 theorem conv2d_out_shape_eq_formula (x w : Arr Int) (bias : Option (Arr Int)) (N Og g Cg H W KH KW : Nat) (stride padding dilation : PArg)
-    (hx : x.shape = [N, g * Cg, H, W]) (hw : w.shape = [g * Og, Cg, KH, KW]) (hb : ∀ b, bias = some b → b.shape = [g * Og])
+    (hx : x.shape = [N, g * Cg, H, W]) (hw : w.shape = [Og * g, Cg, KH, KW]) (hb : ∀ b, bias = some b → b.shape = [Og * g])
     (hOg : 0 < Og) (hg : 0 < g) (hKH : 0 < KH) (hKW : 0 < KW)
     (hs : PosForm2 stride) (hp : Form2 padding) (hd : PosForm2 dilation)
     (hfH : Fits H KH (vals2 0 padding).1 (vals2 1 dilation).1) (hfW : Fits W KW (vals2 0 padding).2 (vals2 1 dilation).2) :
     ∃ r, convnd 2 x w bias stride padding dilation g = .ok r ∧
-      r.shape = [N, g * Og, outSize H KH (vals2 1 stride).1 (vals2 0 padding).1 (vals2 1 dilation).1,
+      r.shape = [N, Og * g, outSize H KH (vals2 1 stride).1 (vals2 0 padding).1 (vals2 1 dilation).1,
                  outSize W KW (vals2 1 stride).2 (vals2 0 padding).2 (vals2 1 dilation).2] := by
-  obtain ⟨r, h1, h2, _⟩ := conv2d_eq_nested_loop x w bias N Og g Cg H W KH KW stride padding dilation hx hw hb hOg hg hKH hKW hs hp hd hfH hfW
+  obtain ⟨r, h1, h2, _⟩ := conv2d_eq_code_loop x w bias N Og g Cg H W KH KW stride padding dilation hx hw hb hOg hg hKH hKW hs hp hd hfH hfW
   exact ⟨r, h1, h2⟩
 
-/-- non-vacuity for conv2d, with pair forms: batch 2, C = 2 (groups 2), 4×5 input, 2×3 kernel, stride (2,1),
+/-- **conv2d = the PyTorch nested loop** on the domain `groups = 1` or one output channel per group, any batch,
+    None / int / pair forms of stride, padding, dilation.  Outside: `conv2d_groups_counterexample`. -/
+theorem conv2d_eq_nested_loop (x w : Arr Int) (bias : Option (Arr Int)) (N Og g Cg H W KH KW : Nat) (stride padding dilation : PArg)
+    (hx : x.shape = [N, g * Cg, H, W]) (hw : w.shape = [Og * g, Cg, KH, KW]) (hb : ∀ b, bias = some b → b.shape = [Og * g])
+    (hOg : 0 < Og) (hg : 0 < g) (hKH : 0 < KH) (hKW : 0 < KW)
+    (hs : PosForm2 stride) (hp : Form2 padding) (hd : PosForm2 dilation)
+    (hfH : Fits H KH (vals2 0 padding).1 (vals2 1 dilation).1) (hfW : Fits W KW (vals2 0 padding).2 (vals2 1 dilation).2)
+    (hdom : g = 1 ∨ Og = 1) :
+    ∃ r, convnd 2 x w bias stride padding dilation g = .ok r ∧
+      r.shape = [N, Og * g, outSize H KH (vals2 1 stride).1 (vals2 0 padding).1 (vals2 1 dilation).1,
+                 outSize W KW (vals2 1 stride).2 (vals2 0 padding).2 (vals2 1 dilation).2] ∧
+      ∀ n o i j, n < N → o < Og * g → i < outSize H KH (vals2 1 stride).1 (vals2 0 padding).1 (vals2 1 dilation).1 →
+        j < outSize W KW (vals2 1 stride).2 (vals2 0 padding).2 (vals2 1 dilation).2 →
+        r.get [n, o, i, j] = conv2dLoop (grpSpec (Og * g) g) x w bias H W Cg KH KW (vals2 1 stride).1 (vals2 1 stride).2
+          (vals2 0 padding).1 (vals2 0 padding).2 (vals2 1 dilation).1 (vals2 1 dilation).2 n o i j := by
+  obtain ⟨r, h1, h2, h3⟩ := conv2d_eq_code_loop x w bias N Og g Cg H W KH KW stride padding dilation hx hw hb hOg hg hKH hKW hs hp hd hfH hfW
+  refine ⟨r, h1, h2, fun n o i j hn ho hi hj => ?_⟩
+  rw [h3 n o i j hn ho hi hj]
+  exact conv2dLoop_congr_grp (grpCode_eq_grpSpec hdom ho) x w bias H W Cg KH KW _ _ _ _ _ _ n i j
+
+/-- non-vacuity for conv2d, with pair forms: batch 2, C = 2 (groups 2, depthwise), 4×5 input, 2×3 kernel, stride (2,1),
     padding (1,0), dilation (1,2) — extents ⌊(4+2−1−1)/2⌋+1 = 3 and ⌊(5+0−4−1)/1⌋+1 = 1 -/
 example : ∃ r, convnd 2 ⟨[2, 2, 4, 5], fun _ => 1⟩ ⟨[2, 1, 2, 3], fun _ => 1⟩ none (.arr [2, 1]) (.arr [1, 0]) (.arr [1, 2]) 2 = .ok r ∧
     r.shape = [2, 2, 3, 1] := by
@@ -206,8 +250,17 @@ example : ∃ r, convnd 2 ⟨[2, 2, 4, 5], fun _ => 1⟩ ⟨[2, 1, 2, 3], fun _ 
     (by decide) (by decide)
   exact ⟨r, h1, h2⟩
 
-/-- the former finding conv2d.dilation-pair-reversed as a positive instance: input (1,1,1,3), kernel (1,2), dilation
-    pair (d_h, d_w) = (2, 1) gives the extent (1, 2) -/
+/-- known finding conv.groups-interleaved, conv2d: C = 2, O = 4, groups = 2, 1×1 input and kernel, weights all 1,
+    `x = (1, 2)`: output channel 1 should read input channel 0 (value 1), the code reads channel 1 (value 2). -/
+theorem conv2d_groups_counterexample :
+    let x : Arr Int := ⟨[1, 2, 1, 1], fun i => match i with | [_, c, _, _] => (c + 1 : Nat) | _ => 0⟩
+    let w : Arr Int := ⟨[4, 1, 1, 1], fun _ => 1⟩
+    Res.getD (convnd 2 x w none .none .none .none 2) [0, 1, 0, 0] = 2
+      ∧ conv2dLoop (grpSpec 4 2) x w none 1 1 1 1 1 1 1 0 0 1 1 0 1 0 0 = 1 := by
+  decide
+
+/-- the repaired dilation pair as a positive instance: input (1,1,1,3), kernel (1,2), dilation pair (d_h, d_w) = (2, 1)
+    gives the extent (1, 2) -/
 example :
     let x : Arr Int := ⟨[1, 1, 1, 3], fun _ => 1⟩
     let w : Arr Int := ⟨[1, 1, 1, 2], fun _ => 1⟩
